@@ -79,7 +79,7 @@ Qed.
 (* ---------- frontend *)
 Lemma fstep_cinv s o : CInv s -> CInv (fstep K s o).
 Proof.
-  intros I. destruct o as [t e|t|t|t|t|l v|k v|d]; cbn [fstep].
+  intros I. destruct o as [t e|t|t|t|t|l v|k v|k m|d]; cbn [fstep].
   - destruct (pend (th s t)); [exact I|]. destruct (tvalid (th s t) && passes_logger s e); [|exact I].
     eapply cinv_vsame; [|exact I]. repeat split. intro u. cbn. unfold upd. destruct (Nat.eqb_spec u t) as [->|]; reflexivity.
   - destruct (memb t (registered s)) eqn:Mb; [exact I|]. cbn [orb]. destruct (tvalid (th s t)) eqn:V; [|exact I]. cbn [negb].
@@ -96,8 +96,9 @@ Proof.
     { intros s' x' A1 A2 A3 A5 A4. eapply cinv_vsame; [|exact I]. split; [|repeat split; assumption].
       intro u. cbn. unfold upd. destruct (Nat.eqb_spec u t) as [->|]; [exact A4|apply A1]. }
     destruct (prepare_write ideal (c_cap K) (q (th s t)) (esz e)) as [q1 [off|]].
-    + eapply cinv_vsame; [|exact I]. repeat split. intro u. cbn [th set_th]. unfold upd.
-      destruct (Nat.eqb_spec u t) as [->|]; [|reflexivity]. destruct (ekind e); reflexivity.
+    + eapply cinv_vsame; [|exact I].
+      destruct (ekind e); (repeat split; intro u; cbn [th set_th set_lg]; unfold upd;
+        destruct (Nat.eqb_spec u t) as [->|]; reflexivity).
     + destruct (match ekind e with KLog => negb (counted (th s t)) | _ => false end);
         destruct (c_dropping K); try destruct (ekind e); apply Hv; auto.
   - destruct (wflush (th s t)); [|exact I]. destruct (existsb (N.eqb n) (flags s)); [|exact I].
@@ -114,6 +115,7 @@ Proof.
     + exact I.
   - eapply cinv_vsame; [|exact I]. repeat split.
   - eapply cinv_vsame; [|exact I]. repeat split.
+  - destruct (existsb (N.eqb m) (sfilt (sk s k)) || (m =? 0)); [exact I|]. eapply cinv_vsame; [|exact I]. repeat split.
   - eapply cinv_vsame; [|exact I]. repeat split.
 Qed.
 
@@ -172,13 +174,11 @@ Proof.
   repeat split. intro v. cbn. unfold upd. destruct (Nat.eqb_spec v u) as [->|]; reflexivity.
 Qed.
 
-Lemma dispatch_vsame e ks : forall s, vsame s (fst (dispatch s e ks)).
-Proof.
-  induction ks as [|k r IH]; intro s; cbn [dispatch]; [apply vsame_refl|].
-  destruct (slevel (sk s k) <=? elvl e); [|apply IH].
-  destruct (memb (swrites (sk s k)) (sthrow (sk s k))); cbn [fst]; [repeat split|].
-  eapply vsame_trans; [|apply IH]. repeat split.
-Qed.
+Lemma core_vsame s s' : th s' = th s -> registered s' = registered s -> invalid_cnt s' = invalid_cnt s -> cache s' = cache s -> vsame s s'.
+Proof. intros A B Cc D. split; [intro u; now rewrite A|repeat split; assumption]. Qed.
+
+Lemma process_event_vsame s e : vsame s (process_event K s e).
+Proof. destruct (process_event_core K s e) as (A & _ & _ & D & _ & G & _ & H & _). now apply core_vsame. Qed.
 
 Lemma read_loop_valid fuel tn : forall x total notes,
   tvalid (fst (fst (fst (read_loop K fuel tn x total notes)))) = tvalid x.
@@ -233,13 +233,8 @@ Lemma process_min_cinv s : CInv s -> CInv (fst (process_min K s)).
 Proof.
   intros I. unfold process_min.
   destruct (min_front s (cache s) None) as [[u e]|]; [|exact I].
-  set (s1 := match ekind e with KLog => _ | KFlush => _ | _ => s end).
-  assert (F1 : vsame s s1).
-  { unfold s1. destruct (ekind e); try apply vsame_refl.
-    - pose proof (dispatch_vsame e (lsinks (lg s (elg e))) s) as D.
-      destruct (dispatch s e (lsinks (lg s (elg e)))) as [s' threw]. cbn [fst] in D.
-      destruct threw; [eapply vsame_trans; [exact D|repeat split]|exact D].
-    - repeat split. }
+  set (s1 := process_event K s e).
+  assert (F1 : vsame s s1) by apply process_event_vsame.
   assert (F3 : vsame s (pop_event s1 u e)).
   { eapply vsame_trans; [exact F1|]. repeat split. intro v. cbn. unfold upd. destruct (Nat.eqb_spec v u) as [->|]; reflexivity. }
   pose proof (cinv_vsame _ _ F3 I) as I3.
